@@ -156,6 +156,10 @@ def cases(tier, seed):
             combos += [c for c in itertools.combinations(names, r) if compatible(c)]
         if tier == "quick":
             combos += [c for c in (("derive_path", "patch_path"), ("derive_pe", "patch"), ("crate_rename", "unk_allow"), ("crate_digit", "crate_never")) if all(n in names for n in c)]
+            # every way a crate can be configured x the two non-default policies for unnamed crates (the policy only matters for crates that
+            # are NOT configured, and `!` is a configuration)
+            combos += [c for c in itertools.product(("crate_ver", "crate_ver_bad", "crate_any", "crate_never", "crate_rename"), ("unk_allow", "unk_deny"))
+                       if all(n in names for n in c) and c not in combos]
         if tier != "quick":
             cli_names = [n for n in names if feats[n][1] is not None]
             combos += [c for c in itertools.combinations(cli_names, 3) if compatible(c)][::3]
